@@ -212,6 +212,17 @@ def symbolic_trace(rng):
             o3, o4 = {"ev": "update_all"}, {"ev": "set_auto", "b": True}
             ops += [o3, o4]
             ev += [run.op(o3), run.op(o4)]
+        elif vals and 0.5 <= r < 0.62:
+            # a state captured while an assignment is still pending, restored after a full update, and flushed again
+            seq = [{"ev": "set_auto", "b": False},
+                   {"ev": "assign", "n": rng.choice(vals), "x": rng.choice("abc") + str(rng.randint(4, 6)), "via_var": rng.random() < 0.5},
+                   {"ev": "save"}, {"ev": "update_all"}]
+            ops += seq
+            ev += [run.op(o) for o in seq]
+            ev.append(run.totals())
+            seq = [{"ev": "restore", "slot": len(run.slots)}, {"ev": "update_all"}, {"ev": "set_auto", "b": True}]
+            ops += seq
+            ev += [run.op(o) for o in seq]
         elif vals and 0.4 <= r < 0.5:
             ops.append({"ev": "failed_simulate"})
             ev.append(run.failed_simulate())
